@@ -172,7 +172,8 @@ static int encode_special_opd(struct instr *instrc, int m, int i) {
       if (instrc->opd[m].index != reg_none && (instrc->opd[m].index & REG_RB))
         instrc->hex.rex |= rex_ + rex_x;
     } else {
-      if ((MODE_MASK & instrc->opd[m].reg) == ext64)
+      // r8-r15 and r8w-r15w
+      if (instrc->opd[m].reg & REG_RB)
         instrc->hex.rex |= rex_ + rex_b;
       instrc->rd_offset = (instrc->opd[m].reg & VALUE_MASK);
     }
